@@ -32,10 +32,64 @@ def run(cmd, timeout=1800, cwd=None, env=None, check=False, input=None):
     return p
 
 
+_inc_re = None
+
+
+def _asm_includes(path, cache):
+    """transitive %include closure of a NASM source (NASM's -MD depfile omits included files,
+    so ninja would not rebuild an object when only a .inc changed)"""
+    import re
+    global _inc_re
+    if _inc_re is None:
+        _inc_re = re.compile(r'^\s*%include\s+"([^"]+)"', re.M)
+    if path in cache:
+        return cache[path]
+    cache[path] = set()
+    try:
+        txt = open(path, errors="replace").read()
+    except OSError:
+        return cache[path]
+    out = set()
+    for inc in _inc_re.findall(txt):
+        for base in (os.path.join(REPO, "lib"), os.path.join(REPO, "lib", "include"), os.path.dirname(path)):
+            cand = os.path.join(base, inc)
+            if os.path.exists(cand):
+                out.add(cand)
+                out |= _asm_includes(cand, cache)
+                break
+    cache[path] = out
+    return out
+
+
+def _invalidate_stale_asm_objects():
+    objroot = os.path.join(LIBDIR, "lib", "CMakeFiles", "IPSec_MB.dir")
+    if not os.path.isdir(objroot):
+        return 0
+    cache = {}
+    n = 0
+    for root, _, files in os.walk(objroot):
+        for f in files:
+            if not f.endswith(".asm.o"):
+                continue
+            obj = os.path.join(root, f)
+            rel = os.path.relpath(obj, objroot)[:-2]          # e.g. avx512_t1/des_x16_avx512.asm
+            src = os.path.join(REPO, "lib", rel)
+            try:
+                om = os.path.getmtime(obj)
+            except OSError:
+                continue
+            deps = _asm_includes(src, cache)
+            if any(os.path.getmtime(d) > om for d in deps if os.path.exists(d)):
+                os.remove(obj)
+                n += 1
+    return n
+
+
 def build_lib():
     """Incremental rebuild of the library from /repo's working tree (hooks on)."""
     t0 = time.time()
     os.makedirs(BUILD, exist_ok=True)
+    _invalidate_stale_asm_objects()
     if not os.path.exists(os.path.join(LIBDIR, "build.ninja")):
         run(["cmake", "-G", "Ninja", "-S", REPO, "-B", LIBDIR, "-DCMAKE_BUILD_TYPE=RelWithDebInfo",
              "-DBUILD_LIBRARY_ONLY=ON", "-DEXTRA_CFLAGS=-D" + GUARD], check=True, timeout=600)
